@@ -569,6 +569,71 @@ def enum_job(job):
                     bad.append(f"{cls.__name__}.from_bits({v}) -> {cls.from_bits(v)}")
     r = dict(base, id="enum-roundtrip", kind="enum const/from_bits", assertion="E.from_bits(E.const(m)) is m and the constant has the member's value in the enum's shape")
     out.append(dict(r, status=VIOLATION, detail="; ".join(bad[:4]), signature={"kind": "enum"}, replay={"enum": True}) if bad else dict(r, status=PROVED))
+    # data.Struct classes with field defaults: const() is a function of its argument alone (earlier calls leave no trace), fields not
+    # named take their declared defaults; slicing a view of an array keeps the element shape
+    class Header(data.Struct):
+        kind: 3
+        length: 8 = 16
+        offset: Shape(4, True) = -2
+
+    fa, fb, fc = fresh("hk", 3, False), fresh("hl", 8, False), fresh("ho", 4, True)
+
+    def run_hdr(fa, fb, fc):
+        before = Header.const(None).as_bits()
+        first = Header.const({"kind": fa, "length": fb})
+        second = Header.const({"offset": fc})
+        after = Header.const(None).as_bits()
+        return before, first.as_bits(), second.as_bits(), after
+
+    def post_hdr(i, res, exc):
+        if exc is not None:
+            return False
+        before, first, second, after = res
+        dflt = 0 | (16 << 3) | (refsem.to_unsigned(-2, 4) << 11)
+        w1 = i["fa"] | (i["fb"] << 3) | (refsem.to_unsigned(-2, 4) << 11)
+        w2 = 0 | (16 << 3) | (refsem.to_unsigned(i["fc"], 4) << 11)
+        return sym_and(sym_and(before == dflt, after == dflt), sym_and(first == w1, second == w2))
+    out.append(prove("struct-class-const", "Struct class const", "class Header(Struct): kind: 3; length: 8 = 16; offset: signed(4) = -2 -- const(None), const({kind, length}), "
+                     "const({offset}), const(None) in this order", {"fa": fa, "fb": fb, "fc": fc}, [], run_hdr, post_hdr, shims=sh))
+    bad = []
+    pairs = []
+    mv = Module()
+    for elem, nm in ((Shape(3, True), "signed(3)"), (data.StructLayout({"lo": 2, "hi": Shape(2, True)}), "struct"), (make_enum("SlE", {"N": -1, "Z": 0, "P": 1}, Shape(2, True)), "signed enum")):
+        av = Signal(data.ArrayLayout(elem, 4), name=f"av_{nm[:3]}")
+        for sl in (slice(1, 3), slice(None, None, -1), slice(None, None, 2), slice(3, None, -2), slice(1, 1)):
+            sub = av[sl]
+            idxs = list(range(4)[sl])
+            if sub.shape() != data.ArrayLayout(elem, len(idxs)) or (sub.shape().elem_shape is not elem and sub.shape().elem_shape != elem):
+                bad.append(f"array of {nm}: view[{sl}].shape() is {sub.shape()!r}")
+                continue
+            for j, k_ in enumerate(idxs):
+                a_, b_ = sub[j], av[k_]
+                if type(a_) is not type(b_) or Value.cast(a_).shape() != Value.cast(b_).shape():
+                    bad.append(f"array of {nm}: view[{sl}][{j}] is a {type(a_).__name__} of shape {Value.cast(a_).shape()!r}, view[{k_}] a {type(b_).__name__} of shape {Value.cast(b_).shape()!r}")
+                    continue
+                # both are widened into a signal two bits wider than the element: the extension shows the signedness
+                oa, ob = (Signal(Shape(len(Value.cast(b_)) + 2, True), name=f"o{len(pairs)}{x}") for x in "ab")
+                mv.d.comb += [oa.eq(a_), ob.eq(b_)]
+                pairs.append((f"array of {nm}: view[{sl}][{j}] vs view[{k_}]", oa, ob))
+    if not bad:
+        simv = symsim.SymSim(mv)
+
+        def scen_v():
+            simv.reset()
+            simv.sym_state("v")
+            simv.settle()
+            return [(simv.value(oa), simv.value(ob)) for _, oa, ob in pairs]
+        pv, = explore(scen_v, max_paths=2)
+        for (label, _, _), (x_, y_) in zip(pairs, pv.value):
+            ne = (x_ != y_)
+            if ne is False:
+                continue
+            sv = z3.Solver()
+            sv.add(bool_term(ne))
+            if timed_check(sv) != z3.unsat:
+                bad.append(f"{label} differ in value")
+    r = dict(base, id="array-view-slices", kind="array view slices", assertion="view[a:b:c][j] is the same value, in the element's shape, as view[range(n)[a:b:c][j]]")
+    out.append(dict(r, status=VIOLATION, detail="; ".join(bad[:3]), signature={"kind": "view-slice"}, replay={"enum": True}) if bad else dict(r, status=PROVED))
     # testbench round trip on the genuine Simulator: ctx.set(x, value) then ctx.get(x) returns that value, for every member of
     # unsigned / signed enumerations and for layouts with signed and signed-enum fields (SimulatorContext.get -> from_bits)
     from amaranth.sim import Simulator
